@@ -12,9 +12,11 @@ ASSUMPTIONS = ["curved / float operands are a deterministic corpus; scale depend
 PYTH = [(F(3, 5), F(4, 5)), (F(5, 13), F(12, 13)), (F(8, 17), F(15, 17)), (F(20, 29), F(21, 29)), (F(-4, 5), F(3, 5)), (F(0), F(1)), (F(-1), F(0)), (F(12, 13), F(-5, 13))]
 
 
-def rand_T(rng):
+def rand_T(rng, small=False):
     c, s = rng.choice(PYTH) if rng.random() < 0.7 else (F(1), F(0))
     k = rng.choice([F(1, 1000), F(1, 100), F(1, 7), F(1), F(3), F(1000), F(100000), F(5, 2)])
+    if small:
+        k = rng.choice([F(1, 50000), F(1, 20000), F(1, 1000)])      # millimetres vs. tens of metres
     mag = rng.choice([1, 10, 1000, 10 ** 6])
     dx, dy = F(rng.randint(-mag, mag)), F(rng.randint(-mag, mag), rng.choice([1, 2, 4]))
     def T(p):
@@ -28,8 +30,12 @@ def run(ctx):
     rng, drv = ctx.rng, ctx.drv
     n = 30 if ctx.quick else 1200
     for it in range(n):
-        va, vb = impl.leaf_family(ctx, 2, pinv=0.25)
-        T, tdesc, k = rand_T(rng)
+        if it % 3 == 2:
+            (va, vb), unit0 = impl.scaled_family(ctx, 2, scales=(F(1),), pinv=0.25)     # integer coordinates: exact after tiny scales
+            T, tdesc, k = rand_T(rng, small=True)
+        else:
+            va, vb = impl.leaf_family(ctx, 2, pinv=0.25)
+            T, tdesc, k = rand_T(rng)
         ta, tb = [T(p) for p in va], [T(p) for p in vb]
         # denominators of transformed coordinates must stay below 10^9 (stored unchanged: C13) for an exact comparison
         if gen.maxden(ta + tb) > 10 ** 8:
@@ -49,7 +55,7 @@ def run(ctx):
         ctx.case("similarity", (tuple(va), tuple(vb), op, repr(tdesc)), nontrivial=impl.kind(R) != "Empty")
         ctx.count("scale:" + str(tdesc["scale"])); ctx.count("op:" + op)
         ctx.check(impl.kind(R) == impl.kind(TR), "kind of the result depends on the similarity map", desc, impl.kind(R), impl.kind(TR))
-        if impl.kind(R) in ("Empty", "Whole"):
+        if impl.kind(R) in ("Empty", "Whole") or impl.kind(R) != impl.kind(TR):
             continue
         # T applied to the real result, as a model shape
         def tshape(S):
@@ -82,6 +88,32 @@ def run(ctx):
         pts = [p for p in pts if gen.maxden([T(p)]) <= 10 ** 9]
         ctx.check([T(p) in TA for p in pts] == [p in A for p in pts], "T(p) in T(A) differs from p in A", {**desc, "points": pts})
         ctx.check((TB in TA) == (B in A) and (TA in TB) == (A in B), "T(B) in T(A) differs from B in A", desc)
+        # the same objects that were just used as operands, transformed IN PLACE by a translation and a uniform scaling
+        if dens * dens < 10 ** 9 and it % 2 == 0:
+            dx, dy, kk = F(rng.randint(-50, 50)), F(rng.randint(-50, 50), 2), F(rng.choice([2, 3, 5]), rng.choice([1, 2]))
+            for X in (A, B):
+                X.move(dx, dy); X.scale(kk, kk)
+            def T2(p):
+                return ((p[0] + dx) * kk, (p[1] + dy) * kk)
+            try:
+                with impl.time_limit(120):
+                    R2 = impl.OPS[op](A, B)
+                def t2shape(S):
+                    from shapepy.shape import SimpleShape, ConnectedShape
+                    def tj(j):
+                        return [T2(tuple(s_.ctrlpoints[0])) for s_ in j.segments]
+                    if isinstance(S, SimpleShape):
+                        return "S " + core.epoly(tj(S.jordans[0]))
+                    if isinstance(S, ConnectedShape):
+                        return "C " + core.elist(S.jordans, lambda j: core.epoly(tj(j)))
+                    return "D " + core.elist(S.subshapes, lambda c: core.elist(c.jordans, lambda j: core.epoly(tj(j))))
+                ctx.check(impl.kind(R2) == impl.kind(R) and canon_close(drv.ask("canon " + core.eshape(R2)), drv.ask("canon " + t2shape(R)), 1e-9),
+                          "operands moved and scaled in place after an operation: the operator no longer commutes with the map", desc)
+                ctx.check([T2(p) in A for p in pts] == [p in impl.poly(va) for p in pts], "T(p) in T(A) differs from p in A (in-place T)", desc)
+            except impl.Timeout:
+                ctx.fail("operator did not return", desc)
+            except Exception as ex:
+                ctx.fail("operator raised after in-place transformation of earlier operands", desc, got=repr(ex))
     # ---- deterministic float / curved scale sweep: circle & square at several units
     global REF_AREA
     REF_AREA = _ref()
